@@ -250,7 +250,9 @@ class Table(Selectable):
         return not self.__eq__(other)
 
     def __hash__(self) -> int:
-        return hash(str(self))
+        # Hash exactly what __eq__ compares (name, schema, alias); a temporal FOR clause does not make tables unequal
+        schema = self._schema.get_sql(DEFAULT_SQL_CONTEXT) if self._schema is not None else None
+        return hash((self._table_name, schema, self.alias))
 
     def select(self, *terms: Sequence[int | float | str | bool | Term | Field]) -> "QueryBuilder":
         """
@@ -1483,7 +1485,8 @@ class QueryBuilder(Selectable, Term):  # type:ignore[misc]
         return not self.__eq__(other)
 
     def __hash__(self) -> int:
-        return hash(self.alias) + sum(hash(clause) for clause in self._from)
+        # Hash exactly what __eq__ compares
+        return hash(self.alias)
 
     def get_sql(self, ctx: SqlContext | None = None) -> str:
         if not ctx:
